@@ -212,6 +212,24 @@ pub fn install_panic_hook(verbose: bool) {
         if verbose {
             eprintln!("[panic] {} at {}", msg, loc);
         }
+        // A panic raised inside core/alloc/a dependency on behalf of library code (shift overflow in a generic integer
+        // operation, capacity overflow, ...) is located outside /repo: attribute it by the innermost crate frame of the backtrace
+        let mut loc = loc;
+        if !loc.contains("/repo/") && !loc.starts_with("src/") {
+            let bt = std::backtrace::Backtrace::force_capture().to_string();
+            for line in bt.lines() {
+                let l = line.trim();
+                if l.contains("biomon::") && !l.contains("biomon::fw::") {
+                    break; // reached the harness's own frames (the hook itself lives in biomon::fw)
+                }
+                if let Some(at) = l.strip_prefix("at ") {
+                    if at.contains("/repo/src/") {
+                        loc = format!("{} [raised in {}]", at, loc);
+                        break;
+                    }
+                }
+            }
+        }
         LAST_PANIC.with(|p| *p.borrow_mut() = format!("{} at {}", msg, loc));
     }));
 }
